@@ -43,7 +43,9 @@ func rulesC15(c *Ctx) {
 			1: func(e *Ex) bool {
 				return e != nil && e.K == "map" && exprIs(e.Args[0], outputs) && exprIs(e.Args[1], "elem("+outputs+").B_")
 			},
-			2: func(e *Ex) bool { return e != nil && e.K == "call" && e.Idx == 0 && exprIs(arg(e, len(e.Args)-1), outputs) },
+			2: func(e *Ex) bool {
+				return e != nil && e.K == "call" && e.Idx == 0 && exprIs(arg(e, len(e.Args)-1), outputs)
+			},
 		})
 		for _, s := range c.signerSites(op) {
 			ok, why, n := c.AfterRequire(s.Instr, saved)
